@@ -5,18 +5,24 @@ PROPERTY = "C04"
 EXPLANATION = (
     "C04 (manifest matches content), manifest half: the real Manifest methods and Document._add_binary_part / del_part on the lxml model with a dict-backed container; "
     "a history of three operations (add a binary part, delete a part, add a path directly, change a media type) addressing one of two file names is chosen by the solver; "
-    "after every step each present file is listed exactly once, nothing absent is listed and the root entry carries the document's media type. "
+    "after every step - and in a clone taken at the end - each present file is listed exactly once, nothing absent is listed and the root entry carries the document's media type. "
 )
 OUTSIDE = ("the zip layer: 'mimetype' first and stored uncompressed, duplicate zip entry names, templates, clone, merge_styles_from (zipfile/filesystem I/O, not encodable - checked concretely in "
-           "the replay only); make_file_entry's XML fragment parsing by real lxml (attribute escaping); histories longer than 3 steps; more than two distinct file names")
+           "the replay only); make_file_entry's XML fragment parsing by real lxml (attribute escaping); histories longer than 3 steps (4 in the thorough tier); more than two distinct file names")
 ASSUMPTIONS = ["two concrete file names, the solver chooses which one each step addresses (so equal and different names are both explored)"]
 TRUSTED = _T
 _ENC = ["src/odfdo/manifest.py:Manifest.add_full_path,del_full_path,get_media_type,set_media_type,get_paths,_file_entry,make_file_entry",
         "src/odfdo/document.py:Document._add_binary_part,del_part", "src/odfdo/utils/xpath_query.py:xpath_literal"]
 _STUB = ["/verif/shadow/lxml (symdom)", "memdoc.MemContainer: dict-backed subclass of odfdo.container.Container (get_part/set_part/del_part/parts; parts lists deleted names too, like the real in-memory container) handed to Document(container)"]
 OBLIGATIONS = [
-    Obl(name=f"manifest_history_op{_op}", module="h_manifest", func="manifest_history", shadow=True, timeout=600, env={"VERIF_OP1": str(_op)}, extra={"op1": _op, "i1": 0},
-        replay="r_h_manifest:manifest_history", weight=110,
-        bounds=f"3 steps: first operation kind {_op} on file 0 (the two names are symmetric), then two symbolic operations (4 kinds) each on a symbolic one of 2 files",
-        encodes=_ENC, stubs=_STUB) for _op in range(4)
+    Obl(name=f"manifest_history_op{_a}{_b}", module="h_manifest", func="manifest_history3", shadow=True, timeout=600, env={"VERIF_OP1": str(_a), "VERIF_OP2": str(_b)},
+        extra={"op1": _a, "op2": _b}, replay="r_h_manifest:manifest_history3", weight=60,
+        bounds=f"3 steps then a clone: operation kinds {_a} (on file 0; the two names are symmetric) then {_b}, then a symbolic operation (4 kinds); files of steps 2-3 symbolic (2 names)",
+        encodes=_ENC + ["src/odfdo/document.py:Document.clone", "src/odfdo/container.py:Container.clone (in-memory branch)"], stubs=_STUB) for _a in range(4) for _b in range(4)
+]
+OBLIGATIONS += [
+    Obl(name=f"manifest_history4_op{_a}{_b}", module="h_manifest", func="manifest_history4", shadow=True, timeout=1500, tier="thorough",
+        env={"VERIF_OP1": str(_a), "VERIF_OP2": str(_b)}, extra={"op1": _a, "op2": _b}, replay="r_h_manifest:manifest_history4", weight=300,
+        bounds=f"4 steps: operation kinds {_a} (on file 0) then {_b}, then two symbolic operations (4 kinds); files of steps 2-4 symbolic (2 names)",
+        encodes=_ENC, stubs=_STUB) for _a in range(4) for _b in range(4)
 ]
